@@ -21,6 +21,15 @@ class Spec:
         return worlds_b.world_for(self.id, tier, seed, idx)
 
     def run(self, world):
+        if world.get("kind") == "twin":
+            from sim import twin
+
+            return twin.run_twin(world)
+        if world.get("engine") == "B" and self.engine == "A":
+            # the bare engine-B run of a twin, executed alone (fresh interpreter)
+            from sim import engine_b
+
+            return engine_b.run_world(world)
         if self.engine == "A":
             from sim import engine_a
 
@@ -30,6 +39,12 @@ class Spec:
         return engine_b.run_world(world)
 
     def oracle(self, world, result):
+        if world.get("kind") == "twin":
+            from sim import twin
+
+            return twin.oracle_twin(world, result)
+        if world.get("engine") == "B" and self.engine == "A":
+            return [], {}, "strict"
         if world.get("kind") == "group":
             from sim import concurrent_a
 
@@ -43,6 +58,10 @@ class Spec:
         return getattr(oracle_b, "oracle_" + self.id.lower())(world, result)
 
     def signature(self, world, result, probes, mode):
+        if world.get("kind") == "twin":
+            from sim import twin
+
+            return twin.signature(world, result, probes, mode)
         if world.get("kind") == "group":
             from sim import concurrent_a
 
@@ -56,6 +75,10 @@ class Spec:
         return worlds_b.signature(self.id, world, result, probes, mode)
 
     def nontrivial(self, world, result):
+        if world.get("kind") == "twin":
+            from sim import twin
+
+            return twin.nontrivial(world, result)
         if world.get("kind") == "group":
             from sim import concurrent_a
 
@@ -69,6 +92,10 @@ class Spec:
         return worlds_b.nontrivial(self.id, world, result)
 
     def shrink_candidates(self, world):
+        if world.get("kind") == "twin":
+            from sim import twin
+
+            return twin.shrink_candidates(world)
         if world.get("kind") == "group":
             from sim import concurrent_a
 
@@ -83,6 +110,10 @@ class Spec:
 
     def fired(self, world, result, probes):
         """How often each fault kind actually fired in this run."""
+        if world.get("kind") == "twin":
+            from sim import twin
+
+            return twin.fired(world, result, probes)
         if world.get("kind") == "group":
             from sim import concurrent_a
 
@@ -96,6 +127,14 @@ class Spec:
         return engine_b.fired(world, result)
 
     def digest(self, result):
+        if result.get("kind") == "twin":
+            from sim import twin
+
+            return twin.digest(result)
+        if "steps" in result and "loss_events" in result:
+            from sim import engine_b
+
+            return engine_b.result_digest(result)
         if self.engine == "A":
             from sim.core import digest
 
@@ -105,6 +144,10 @@ class Spec:
         return engine_b.result_digest(result)
 
     def sample_view(self, world, result, probes, mode):
+        if world.get("kind") == "twin":
+            from sim import twin
+
+            return twin.sample_view(world, result, probes, mode)
         if world.get("kind") == "group":
             from sim import concurrent_a
 
@@ -126,6 +169,8 @@ class Spec:
         return world
 
     def logical_time(self, result):
+        if result.get("kind") == "twin":
+            return int(result.get("n_loss_events", 0))
         if result.get("kind") == "group":
             from sim import concurrent_a
 
